@@ -68,7 +68,8 @@ Definition set_memid (s : state) (m : N) : state :=
 
 (** Running state of the replay. *)
 Record acc := { a_st : state; a_ws : list rec; a_mis : bool; a_vio : bool; a_known : N; a_next : N;
-  a_broken : bool  (* some state of the run violated the recency-order invariant [tier_inv_b] *) }.
+  a_broken : bool;  (* some state of the run violated the recency-order invariant [tier_inv_b] *)
+  a_struct : bool   (* some state had an unsorted source or overlapping main tables ([src_b] false): never a known class *) }.
 
 Definition classify (spec model : option rec) (obs : option (bytes * N)) : N :=
   (* a violation the faithful model reproduces, by kind of wrong winner:
@@ -82,29 +83,29 @@ Definition classify (spec model : option rec) (obs : option (bytes * N)) : N :=
 Definition step (now : N) (a : acc) (o : xop) : acc :=
   let s := a_st a in
   match o with
-  | XPut r => {| a_st := put s r; a_ws := a_ws a ++ [r]; a_mis := a_mis a; a_vio := a_vio a; a_known := a_known a; a_next := a_next a; a_broken := a_broken a |}
+  | XPut r => {| a_st := put s r; a_ws := a_ws a ++ [r]; a_mis := a_mis a; a_vio := a_vio a; a_known := a_known a; a_next := a_next a; a_broken := a_broken a; a_struct := a_struct a |}
   | XRotate newid =>
       {| a_st := set_memid (set_maxfid (rotate s) (N.max (st_maxfid s) newid)) newid;
-         a_ws := a_ws a; a_mis := a_mis a; a_vio := a_vio a; a_known := a_known a; a_next := a_next a; a_broken := a_broken a |}
-  | XFlush => {| a_st := flush s; a_ws := a_ws a; a_mis := a_mis a; a_vio := a_vio a; a_known := a_known a; a_next := a_next a; a_broken := a_broken a |}
+         a_ws := a_ws a; a_mis := a_mis a; a_vio := a_vio a; a_known := a_known a; a_next := a_next a; a_broken := a_broken a; a_struct := a_struct a |}
+  | XFlush => {| a_st := flush s; a_ws := a_ws a; a_mis := a_mis a; a_vio := a_vio a; a_known := a_known a; a_next := a_next a; a_broken := a_broken a; a_struct := a_struct a |}
   | XCompact k lvl top bot added =>
-      {| a_st := compact s k lvl top bot added; a_ws := a_ws a; a_mis := a_mis a; a_vio := a_vio a; a_known := a_known a; a_next := a_next a; a_broken := a_broken a |}
+      {| a_st := compact s k lvl top bot added; a_ws := a_ws a; a_mis := a_mis a; a_vio := a_vio a; a_known := a_known a; a_next := a_next a; a_broken := a_broken a; a_struct := a_struct a |}
   | XReopen memid maxfid =>
       let s' := reopen s in
       {| a_st := set_maxfid s' maxfid; a_ws := a_ws a;
          a_mis := a_mis a || negb (st_memid s' =? memid); a_vio := a_vio a; a_known := a_known a;
-         a_next := next_ts_after_open s'; a_broken := a_broken a |}
+         a_next := next_ts_after_open s'; a_broken := a_broken a; a_struct := a_struct a |}
   | XGet k v obs =>
       let m := get s k v in
       let sp := latest_at (a_ws a) k v in
       let bad := negb (obs_eqb (option_map proj sp) obs) in
       (* a known class only when the state really violates the recency-order invariant
          under which reads are proved correct (C01_reads_latest) *)
-      let cls := if bad then (if a_broken a then classify sp m obs else 0) else 0 in
+      let cls := if bad then (if a_broken a && negb (a_struct a) then classify sp m obs else 0) else 0 in
       {| a_st := s; a_ws := a_ws a;
          a_mis := a_mis a || negb (obs_eqb (option_map proj m) obs);
          a_vio := a_vio a || bad;
-         a_known := if bad then (if cls =? 0 then 999 else N.max cls (a_known a)) else a_known a; a_next := a_next a; a_broken := a_broken a |}
+         a_known := if bad then (if cls =? 0 then 999 else N.max cls (a_known a)) else a_known a; a_next := a_next a; a_broken := a_broken a; a_struct := a_struct a |}
   | XGetPlain k obs =>
       let m := get s k max_ver in
       let sp := latest_at (a_ws a) k max_ver in
@@ -113,18 +114,18 @@ Definition step (now : N) (a : acc) (o : xop) : acc :=
       {| a_st := s; a_ws := a_ws a;
          a_mis := a_mis a || negb agree;
          a_vio := a_vio a || bad;
-         a_known := if bad then (if agree && a_broken a then N.max 1 (a_known a) else 999) else a_known a; a_next := a_next a; a_broken := a_broken a |}
+         a_known := if bad then (if agree && a_broken a && negb (a_struct a) then N.max 1 (a_known a) else 999) else a_known a; a_next := a_next a; a_broken := a_broken a; a_struct := a_struct a |}
   | XSame k v before after =>
       let bad := negb (obs_eqb before after) in
       {| a_st := s; a_ws := a_ws a; a_mis := a_mis a; a_vio := a_vio a || bad;
-         a_known := if bad then 999 else a_known a; a_next := a_next a; a_broken := a_broken a |}
+         a_known := if bad then 999 else a_known a; a_next := a_next a; a_broken := a_broken a; a_struct := a_struct a |}
   | XCommit r =>
       (* the commit timestamp must exceed every stored version that is not the plain-API sentinel *)
       let stale := existsb (fun w => negb (r_ver w =? max_ver) && (r_ver r <=? r_ver w)) (a_ws a) in
       {| a_st := put s r; a_ws := a_ws a ++ [r];
          a_mis := a_mis a || negb (r_ver r =? a_next a);
          a_vio := a_vio a || stale;
-         a_known := if stale then 999 else a_known a; a_next := r_ver r + 1; a_broken := a_broken a |}
+         a_known := if stale then 999 else a_known a; a_next := r_ver r + 1; a_broken := a_broken a; a_struct := a_struct a |}
   | XLayout imms l0 lvls =>
       let ok := nlist_eqb (map fst (st_imms s)) imms && nlist_eqb (fids (st_l0 s)) l0 &&
                 (Nat.eqb (List.length (st_lvls s)) (List.length lvls)) &&
@@ -132,7 +133,7 @@ Definition step (now : N) (a : acc) (o : xop) : acc :=
       let s' := {| st_mem := st_mem s; st_memid := st_memid s; st_imms := st_imms s; st_l0 := st_l0 s;
                    st_lvls := map (fun p => adopt (fst p) (snd p)) (combine (st_lvls s) lvls);
                    st_maxfid := st_maxfid s |} in
-      {| a_st := if ok then s' else s; a_ws := a_ws a; a_mis := a_mis a || negb ok; a_vio := a_vio a; a_known := a_known a; a_next := a_next a; a_broken := a_broken a |}
+      {| a_st := if ok then s' else s; a_ws := a_ws a; a_mis := a_mis a || negb ok; a_vio := a_vio a; a_known := a_known a; a_next := a_next a; a_broken := a_broken a; a_struct := a_struct a |}
   end.
 
 Definition changes_state (o : xop) : bool :=
@@ -140,14 +141,16 @@ Definition changes_state (o : xop) : bool :=
 
 Definition step' (now : N) (a : acc) (o : xop) : acc :=
   let a' := step now a o in
-  if changes_state o && negb (a_broken a') && negb (tier_inv_b (a_st a')) then
+  if changes_state o && negb (a_broken a' && a_struct a') then
+    let ok := tier_inv_b (a_st a') in
+    let sok := src_b (a_st a') in
     {| a_st := a_st a'; a_ws := a_ws a'; a_mis := a_mis a'; a_vio := a_vio a'; a_known := a_known a';
-       a_next := a_next a'; a_broken := true |}
+       a_next := a_next a'; a_broken := a_broken a' || negb ok; a_struct := a_struct a' || negb sok |}
   else a'.
 
 Definition replay (c : case) : acc :=
   fold_left (step' (c_now c)) (c_ops c)
-            {| a_st := init (c_memid c); a_ws := []; a_mis := false; a_vio := false; a_known := 0; a_next := 1; a_broken := false |}.
+            {| a_st := init (c_memid c); a_ws := []; a_mis := false; a_vio := false; a_known := 0; a_next := 1; a_broken := false; a_struct := false |}.
 
 (** [a_known = 999] marks a violation outside every known class. *)
 Definition check (c : case) : verdict :=
